@@ -80,8 +80,10 @@ func main() {
 			if !ok {
 				return true
 			}
+			// the StateDB methods that matter for the order, whatever the local variable is called
 			if sel, ok := call.Fun.(*ast.SelectorExpr); ok {
-				if id, ok := sel.X.(*ast.Ident); ok && id.Name == "stateDB" {
+				switch sel.Sel.Name {
+				case "CacheCtxForPrecompile", "SavePrecompileCalledJournalChange", "CommitCacheCtx", "Commit":
 					orsCalls = append(orsCalls, sel.Sel.Name)
 				}
 			}
